@@ -19,6 +19,9 @@ func (vc *FuncVC) execCall(st *State, c *ssa.CallCommon, fv Value, args []Value,
 		sp := vc.w.ifaceMethodSpec(c.Value.Type(), c.Method.Name())
 		sig := c.Method.Type().(*types.Signature)
 		if sp == nil {
+			if vc.dispatchInvoke(st, c, recv, args, sig, pos, k) {
+				return
+			}
 			vc.unknownCall(st, shortName(typeKey(c.Value.Type()))+"."+c.Method.Name(), sig, pos, k)
 			return
 		}
@@ -760,4 +763,68 @@ func (vc *FuncVC) lockAtomic(st *State, fn *ssa.Function, args []Value, pos toke
 		}
 		vc.emit(st, vc.uniqueName("lock.atomic"), "safe", nil, Not(Eq(r.Base, m.Base)), "a mutex released earlier in this call is acquired again: the method body is not one critical section", pos)
 	}
+}
+
+// implsOf: the pointer-to-named types of the repository that implement the interface of an invoke-mode call and whose
+// method is under contract.
+type implT struct {
+	t  types.Type
+	fn *ssa.Function
+}
+
+func (vc *FuncVC) implsOf(c *ssa.CallCommon) []implT {
+	it, ok := c.Value.Type().Underlying().(*types.Interface)
+	if !ok {
+		return nil
+	}
+	var impls []implT
+	for _, p := range vc.w.pkgs {
+		sp := vc.w.prog.Package(p.Types)
+		if sp == nil {
+			continue
+		}
+		for _, name := range sortedKeys(sp.Members) {
+			tm, ok := sp.Members[name].(*ssa.Type)
+			if !ok {
+				continue
+			}
+			pt := types.NewPointer(tm.Type())
+			if !types.Implements(pt, it) {
+				continue
+			}
+			fn := vc.w.prog.LookupMethod(pt, c.Method.Pkg(), c.Method.Name())
+			if fn == nil || vc.w.specFor(fn) == nil {
+				continue
+			}
+			impls = append(impls, implT{pt, fn})
+		}
+	}
+	return impls
+}
+
+// dispatchInvoke: a method call through an interface that has no contract of its own is decided by the dynamic type:
+// for every implementation under contract (implsOf) there is one path (the type tag is assumed, the method's contract
+// is applied to the boxed pointer). That the dynamic type is one of them is an obligation (closed world of the
+// implementations under contract). Returns false if no implementation is under contract.
+func (vc *FuncVC) dispatchInvoke(st *State, c *ssa.CallCommon, recv Term, args []Value, sig *types.Signature, pos token.Pos, k func(*State, Value)) bool {
+	impls := vc.implsOf(c)
+	if len(impls) == 0 {
+		return false
+	}
+	var oneOf []Term
+	for _, im := range impls {
+		oneOf = append(oneOf, Eq(ITag(recv), IntLit(int64(vc.w.TagOf(im.t)))))
+	}
+	vc.safety(st, "dispatch.closed", Or(oneOf...), "the dynamic type of the receiver is one of the implementations under contract", pos)
+	for _, im := range impls {
+		im := im
+		tag := IntLit(int64(vc.w.TagOf(im.t)))
+		st2 := st.clone()
+		st2.assume(Eq(ITag(recv), tag))
+		st2.trace = append(st2.trace, fmt.Sprintf("%s: dynamic type %s", vc.pos(pos), shortName(typeKey(im.t))))
+		vc.run(func() {
+			vc.callFunctionC(st2, im.fn, nil, nil, append([]Value{IRef(recv)}, args...), pos, k)
+		})
+	}
+	panic(pathEnd{})
 }
